@@ -262,9 +262,18 @@ class World:
                 if via == "tree":
                     tree = self.cfg.to_tree(virtual=ev["virtual"], sensitive_mask=mask)
                 else:
-                    # the document route: dumps() takes the same two arguments
+                    # the document routes: dumps() and save() take the same two arguments and must
+                    # produce the same document
                     data = self.cfg.dumps(via, virtual=ev["virtual"], sensitive_mask=mask)
                     tree = cinco.ConfigFormat.get(via).loads(self.cfg, data)
+                    dest = os.path.join(self.root, "render-out." + via)
+                    self.cfg.save(dest, via, virtual=ev["virtual"], sensitive_mask=mask)
+                    with open(dest, "rb") as fp:
+                        tree_saved = cinco.ConfigFormat.get(via).loads(self.cfg, fp.read())
+                    os.unlink(dest)
+                    # (ciphertexts differ between two renderings - fresh IVs - so compare what they mean)
+                    if sort_tree(self.abstract_tree(self.desc, tree_saved)) != sort_tree(self.abstract_tree(self.desc, tree)):
+                        tree = {"dumps-and-save-differ": [tree, tree_saved]}
                 res["tree"] = sort_tree(self.abstract_tree(self.desc, tree))
                 # the tree must be plain data as Python sees it, too
                 res["nonplain"] = nonplain(tree) or None
@@ -353,11 +362,12 @@ def driver(cinco, desc, seed, n_traces, length):
                     elif key == "dl":
                         v = {"t": "list", "l": [{"t": "int", "i": rng.randint(0, 9)} for _ in range(rng.randint(0, 3))]}
                     elif key in ("pw", "tok", "sec"):
-                        v = rng.choice([S(rnd_text(rng, 6, 14, edge=False)), S(rnd_text(rng, 30, 70, edge=False)), S(""), {"t": "none"}])
+                        v = rng.choice([S(rnd_text(rng, 6, 14, edge=False)), S(rnd_text(rng, 30, 70, edge=False)), S(rnd_text(rng, 16, 16, edge=False)),
+                                        S(rnd_text(rng, 32, 32, edge=False)), S(""), {"t": "none"}])
                     elif key == "hash":
                         v = S(rnd_text(rng, 6, 10, edge=False))
                     elif key == "blob":
-                        v = rng.choice([B(rng.randint(0, 40), rng), {"t": "none"}])
+                        v = rng.choice([B(rng.randint(0, 40), rng), B(rng.randint(55, 120), rng), {"t": "none"}])
                     elif key == "bl":
                         v = {"t": "list", "l": [B(rng.randint(0, 6), rng) for _ in range(rng.randint(0, 3))]}
                     elif key == "sl":
